@@ -39,7 +39,7 @@ type topicModel struct {
 	definite map[uint16]string // id -> name, confirmed to the client (gateway side meaning == client knowledge)
 	pendReg  map[uint16]string // client REGISTER msgID -> name
 	pendSub  map[uint16]*snref.Pkt
-	gwReg    map[uint16]*snref.Pkt // gateway REGISTER by msgID
+	gwReg    map[uint32]*snref.Pkt // gateway REGISTER by (msgID, TopicID): the gateway may have two REGISTERs with one message ID outstanding (its own ID for a QoS 0 message, the broker's for a QoS 1/2 one)
 	handed   map[uint16]string     // every id the gateway handed out -> first name
 	maybe    map[uint16]bool       // ids possibly allocated but not (yet) confirmed: don't-care
 	rejected map[uint16]string     // ids of gateway REGISTERs the client refused: they denote nothing
@@ -48,7 +48,7 @@ type topicModel struct {
 
 func newTopicModel(pre Predef) *topicModel {
 	return &topicModel{pre: pre, definite: map[uint16]string{}, pendReg: map[uint16]string{}, pendSub: map[uint16]*snref.Pkt{},
-		gwReg: map[uint16]*snref.Pkt{}, handed: map[uint16]string{}, maybe: map[uint16]bool{}, rejected: map[uint16]string{}, refused: map[string]int{}}
+		gwReg: map[uint32]*snref.Pkt{}, handed: map[uint16]string{}, maybe: map[uint16]bool{}, rejected: map[uint16]string{}, refused: map[string]int{}}
 }
 
 // TopicModel is the exported view of the reference registration model, for adaptive workload generators.
@@ -129,8 +129,18 @@ func (m *topicModel) feed(it Item) {
 		case snref.SUBSCRIBE:
 			m.pendSub[p.MsgID] = p
 		case snref.REGACK:
-			if r, ok := m.gwReg[p.MsgID]; ok {
-				delete(m.gwReg, p.MsgID)
+			key := uint32(p.MsgID)<<16 | uint32(p.TopicID)
+			r, ok := m.gwReg[key]
+			if !ok && p.RC != 0 {
+				// a refusal need not echo the TopicID
+				for k, q := range m.gwReg {
+					if k>>16 == uint32(p.MsgID) && (!ok || k < key) {
+						key, r, ok = k, q, true
+					}
+				}
+			}
+			if ok {
+				delete(m.gwReg, key)
 				if p.RC == 0 {
 					m.definite[r.TopicID] = r.Name
 					delete(m.maybe, r.TopicID)
@@ -164,7 +174,7 @@ func (m *topicModel) feed(it Item) {
 				}
 			}
 		case snref.REGISTER:
-			m.gwReg[p.MsgID] = p
+			m.gwReg[uint32(p.MsgID)<<16|uint32(p.TopicID)] = p
 			m.maybe[p.TopicID] = true
 		}
 	}
